@@ -8,6 +8,8 @@ import Larking.Model.StreamCodec
 import Larking.Model.Selector
 import Larking.Model.Negotiate
 import Larking.Model.Trie
+import Larking.Model.TrieDel
+import Larking.Gen.TrieDel
 import Larking.Model.Streams
 import Larking.Model.Param
 import Larking.Model.Registry
@@ -270,6 +272,15 @@ def handleRouting : List String → Option String
       let p ← parseRunes path
       let (t, _) := buildTrie Gen.tokenCap bs
       pure (showSRes (Trie.matchPath Gen.tokenCap (convOf bs) t p v))
+  | ["delroute", bindings, dels, verb, path] => do
+      let bs ← (if bindings == "-" then some [] else (bindings.splitOn ";").mapM parseBinding)
+      let ds ← (if dels == "-" || dels.isEmpty then some [] else (dels.splitOn ",").mapM (·.toNat?))
+      let v ← hexArg verb
+      let p ← parseRunes path
+      let (t, _) := buildTrie Gen.tokenCap bs
+      -- `delRule` until it reports false, method after method (at most one success per binding)
+      let t' := ds.foldl (fun acc d => Trie.delAll Gen.aliveCounts d (bs.length + 1) acc) t
+      pure (showSRes (Trie.matchPath Gen.tokenCap (convOf bs) t' p v))
   | _ => none
 
 /-! ### streams -/
